@@ -52,6 +52,21 @@ CLAIMED = {
         "reply_addr, absent_noop, addressed_isolated, reply_is_own (Nodup addresses), data_nonreceiving_unchanged / unaddressed_only_receiving (uses the reachable-state invariant) and bus_inv_preserved proved for buses of any size. Tie: guided walks on 1..4-sign buses with mixed styles, absent addresses and two signs mid-transfer at once; per-message snapshot oracle on every non-addressed sign and a solo-clone oracle for the reply.",
         "Finding F5 (a StartReset-abandoned transfer flushed by a later unaddressed DataChunksSent) was reported here and fixed in /repo (cae3100).",
         "§6 C14"),
+    "C09": (
+        "Lean 4 theorems on a hand-written interaction-tree model of the controller + differential correspondence (exhaustive reply-tree enumeration); refinement to a conversation-level transfer spec, induction over chunk lists",
+        "chunks_complete, chunk_sizes, item_message (offset 16*i, bytes 16*i..), item_message_count, offset_exact, items_in_order, config_is_type_block, count_exact, and for every reply script transfer_shape (attempts each exactly request ++ all chunks ++ count ++ query, only the last may be cut short), ack_before_data and configure_shape, all derived from transfer_refines. Tie: breadth-first enumeration of the reply tree of configure / configure-if-needed / send-pages over a 46-symbol alphabet to the natural end of each operation (310k conversations quick) for several addresses, types and page lists incl. retries, plus scripted runs with items up to 65552 bytes; a trace parser in the harness checks the shape on the recorded messages.",
+        "Chunk counter and offsets are 16-bit in the real controller: >= 65536 chunks per transfer panics in debug builds and offsets wrap beyond 65536 bytes; the theorems carry the hypothesis (allChunkMsgs items).length < 65536 and the model makes the overflow an explicit panic node (domain limit, DESIGN.md §7).",
+        "§6 C09"),
+    "C10": (
+        "Lean 4 theorems on a hand-written interaction-tree model of the controller + differential correspondence (exhaustive reply-tree enumeration); per-operation refinement theorems Prog.ConvsIn Spec and a reply-classification theorem",
+        "For configure, configure-if-needed, send-pages, show, load-next and shut-down: every conversation against every reply script satisfies the documented protocol stated as inductive relations on conversations (Spec/CtrlProtocol.lean: EnsureOK/EnsureStop, TransferSpec, ConfigureSpec, ConfigureIfNeededSpec, SendPagesSpec, SwitchSpec, ShutDownSpec), with the prescribed outcome; polling fuel never binds; and *_class: messages and outcome depend only on the class of each reply (own report s / own ack o / silence / unrelated / bus error), which extends the exhaustive finite-alphabet enumeration to all replies (all 65536 addresses, arbitrary frames). Tie: the reply-tree enumeration compares model trace+outcome with the real Sign on a recording scripted SignBus and with an independent state-machine port of the protocol in the harness.",
+        "Spec relations were written from the doc comments of sign.rs; the converse inclusion (every spec conversation is produced) is not proved. u16 counter limit as in C09.",
+        "§6 C10"),
+    "C11": (
+        "Lean 4 theorems on a hand-written interaction-tree model of the controller + differential correspondence (exhaustive reply-tree enumeration); structural predicates AllSends / Strict / Respects on interaction trees lifted to all runs",
+        "own-address-only for every operation; bus_error_is_last for every interaction tree; disallowed_reply_is_last (request not acknowledged by the own address, anything but silence after data / count / pixels-complete / goodbye) for every operation; configure_success_confirmed and sendPages_success_confirmed (last transfer exchange is the own 'received' report); transfer_attempts_le_3; transfer_retry_only_after_own_failed (RetryShape); foreign_reply_is_unrelated / foreign_ack_is_unrelated. Tie: same reply-tree enumeration as C10 with the invariants evaluated directly on every recorded conversation and a re-run with foreign replies replaced by an unrelated frame.",
+        "Same as C10.",
+        "§6 C11"),
 }
 
 PENDING = {}
